@@ -116,6 +116,16 @@ def check_state(desc, sc, pats, flagsets, res, hows=('root_dir',), thin=0):
                         continue
                     gs = set(_anon(refglob.norm(x), sc.root) for x in got)
                     as_ = set(_anon(refglob.norm(x), sc.root) for x in acc)
+                    if how == 'dir_fd' and isinstance(p, str) and '<ROOT>' not in p and '..' not in p:
+                        # the bytes twin of the same descriptor-based call
+                        try:
+                            with fsx.ScandirMonitor(HORIZON):
+                                gb = set(refglob.norm(os.fsdecode(x)) for x in G.glob(os.fsencode(p), flags=fscommon.gflags(fs2), dir_fd=fd))
+                        except Exception as e:  # noqa: BLE001
+                            gb = type(e).__name__
+                        res.n['evaluations'] += 1
+                        if gb != gs:
+                            res.add_violation(ID, run.viol('bytes-dir_fd-differs', inp, sorted(gs), sorted(gb) if isinstance(gb, set) else gb))
                     if gs and len(gs) < len(model.all_paths()) + 2:
                         res.n['distinct_nontrivial'] += 1
                     only_glob = sorted(gs - as_)
@@ -234,6 +244,13 @@ def replay(v):
         got, acc = run_both(inp['patterns'], inp['exclude'], inp['flags'], sc.root, how, candidates(model, []), fd)
         if got is None:
             return {'violates': True, 'observed': 'no termination'}
+        if k == 'bytes-dir_fd-differs':
+            gs = set(refglob.norm(x) for x in got)
+            try:
+                gb = set(refglob.norm(os.fsdecode(x)) for x in G.glob(os.fsencode(inp['patterns']), flags=fscommon.gflags(inp['flags']), dir_fd=fd))
+            except Exception as e:  # noqa: BLE001
+                gb = type(e).__name__
+            return {'violates': gb != gs, 'observed': sorted(gb) if isinstance(gb, set) else gb}
         gs = set(_anon(refglob.norm(x), sc.root) for x in got)
         as_ = set(_anon(refglob.norm(x), sc.root) for x in acc)
         return {'violates': gs != as_, 'observed': {'only_glob': sorted(gs - as_), 'only_globmatch': sorted(as_ - gs)}}
